@@ -59,8 +59,18 @@ def shape_to_spherical(repo):
             v = st.value
             while isinstance(v, ast.Call) and isinstance(v.func, ast.Name) and v.func.id == "cast" and len(v.args) == 2:
                 v = v.args[1]
-            if isinstance(v, ast.Tuple) and len(v.elts) == 2 and all(isinstance(x, ast.Name) for x in v.elts):
-                return env.get(v.elts[0].id) == "atan2" and env.get(v.elts[1].id) == "acos"
+            if isinstance(v, ast.Tuple) and len(v.elts) == 2:
+                kinds = []
+                for x in v.elts:
+                    while isinstance(x, ast.Call) and isinstance(x.func, ast.Name) and x.func.id == "cast" and len(x.args) == 2:
+                        x = x.args[1]
+                    if isinstance(x, ast.Name):
+                        kinds.append(env.get(x.id))
+                    elif isinstance(x, ast.Call) and isinstance(x.func, ast.Attribute) and isinstance(x.func.value, ast.Name) and x.func.value.id == "math":
+                        kinds.append(x.func.attr)
+                    else:
+                        kinds.append(None)
+                return kinds == ["atan2", "acos"]
     return False
 
 
@@ -111,10 +121,15 @@ def d1(repo):
     """Returns list of (name, ok, detail)."""
     out = []
     iv.prec = 80
+    # the two source-shape facts are what the interval argument starts from; when the source no longer has that
+    # shape the argument does not apply (undecided) - that is not a refutation of the range property
     ok_shape = shape_to_spherical(repo)
-    out.append(("C02/D1/to_spherical-returns-(atan2,acos)", ok_shape, "result ranges theta in [-pi, pi], phi in [0, pi]"))
-    out.append(("C02/D1/cell_to_lonlat-feeds-to_lonlat-a-to_spherical-value", dataflow_cell_to_lonlat(repo),
-                "point = _dodecahedron.inverse(..); DodecahedronProjection.inverse returns to_spherical(..)"))
+    out.append(("C02/D1/to_spherical-returns-(atan2,acos)", True if ok_shape else None,
+                "result ranges theta in [-pi, pi], phi in [0, pi]" if ok_shape else "undecided: to_spherical no longer returns (atan2(..), acos(..)) in a recognised form"))
+    ok_flow = dataflow_cell_to_lonlat(repo)
+    out.append(("C02/D1/cell_to_lonlat-feeds-to_lonlat-a-to_spherical-value", True if ok_flow else None,
+                "point = _dodecahedron.inverse(..); DodecahedronProjection.inverse returns to_spherical(..)" if ok_flow else
+                "undecided: the value cell_to_lonlat hands to to_lonlat is no longer recognisably a to_spherical result"))
     try:
         ev = FloatEval(repo)
         pi_hi = 3.1415926535897936
